@@ -552,6 +552,13 @@ static ASTNode *load_module_internal(const char *module_path, Environment *env, 
             return cached_ast;
         }
         
+        /* Already marked but without an AST: the module is being loaded further up the
+         * import chain (circular import). Callers treat NULL for a cached path as
+         * "nothing more to load"; loading it again would recurse without end. */
+        if (is_module_cached(module_path)) {
+            return NULL;
+        }
+
         /* Mark module as loading to prevent circular imports */
         cache_module(module_path);
     }
